@@ -1,7 +1,7 @@
 use std::borrow::Cow;
 use std::fmt::Display;
 
-use anyhow::{bail, Result};
+use anyhow::{bail, Context, Result};
 
 use crate::ast::Value;
 use crate::instruction;
@@ -374,8 +374,8 @@ pub fn number_from_string(string: &str, rule: Rule) -> Result<Number> {
             }
         }
         Rule::byte => Number::Byte(
-            u8::from_str_radix(&as_str[2..], 2)
-                .expect("parser allowed a non-standard byte literal")
+            u8::from_str_radix(&as_str[2..].replace('_', ""), 2)
+                .with_context(|| format!("`{as_str}` does not fit in a byte (8 binary digits)"))?
                 .to_string(),
         ),
         _ => bail!("non-number rule"),
